@@ -182,6 +182,7 @@ class LLSWorld(World):
         k["views"] = rng.random() < 0.25                  # y, z and the initial x are strided views of larger caller arrays
         k["xgiven"] = rng.choice(["none", "zeros", "random"])
         k["P"] = rng.random() < 0.3
+        k["Pkind"] = rng.choice(["jacobi", "jacobi", "identity", "multiply_one"])
         k["steps_given"] = rng.random() < 0.4
         k["accelerate"] = rng.random() < 0.7
         k["rho"] = rng.choice([1, 1, 0.5, 2.0])
@@ -515,7 +516,13 @@ class LLSWorld(World):
                 dg = np.real(np.diag(Ad.conj().T @ Ad)) + lam + (k["rho"] if eff == "ADMM" else 0)
                 pm = (1.0 / dg).reshape(plan["A"]["ishape"])
                 ledger.own("P.mult", pm)
-                opts["P"] = sp.linop.Multiply(plan["A"]["ishape"], pm)
+                pk_ = k.get("Pkind", "jacobi")
+                if pk_ == "identity":
+                    opts["P"] = sp.linop.Identity(plan["A"]["ishape"])   # returns its input
+                elif pk_ == "multiply_one":
+                    opts["P"] = sp.linop.Multiply(plan["A"]["ishape"], 1)  # scalar 1 short-circuits
+                else:
+                    opts["P"] = sp.linop.Multiply(plan["A"]["ishape"], pm)
             try:
                 app = sp.app.LinearLeastSquares(Aop, y, **kw, **opts)
             except Exception as e:
@@ -726,7 +733,7 @@ class LLSWorld(World):
         res.fingerprint = codec.json_digest([
             k["solver"], eff, plan["A"]["kind"], gk, gkG, lam > 0, z is not None, k["xgiven"], k["P"], k["steps_given"],
             k["accelerate"], k["rho"], k["complex"], k["show_pbar"], plan["twin"], n, bool(plan.get("prev")),
-            bool(k.get("z_scalar")), bool(k.get("save_obj")), bool(k.get("views")),
+            bool(k.get("z_scalar")), bool(k.get("save_obj")), bool(k.get("views")), k.get("Pkind") if k["P"] else None,
             [(f["seam"], f.get("kind", "jump")) for f in plan["faults"]]])
 
     # ---------------------------------------------------------------- shrink
